@@ -144,7 +144,7 @@ def start(scn, L, session=None, cache=None):
         skw["anon"] = True
     else:
         ckw = {}
-        if scn.get("clientcert"):
+        if scn.get("clientcert") or scn.get("keypair"):
             cc, ck = lab.creds("client_rsa")
             ckw.update(certChain=cc, privateKey=ck)
         if scn.get("npn"):
@@ -392,6 +392,8 @@ class Editor(object):
             drain(self.cls._sendMsg(conn, Message(22, body + bytearray(head)), True, False))
         ents[-1]["plus"] = True
         ents[-1]["frag"] = True
+        self.emitted.append({"kind": "key_update", "epoch": ents[-1]["epoch"], "plus": False, "origin": "insert",
+                             "part": "head"})
 
     def _release_span(self, nxt, via):
         """send the held message; its record also carries the first 3 bytes of `nxt` (the next handshake
@@ -409,6 +411,8 @@ class Editor(object):
         if head:
             ents[-1]["plus"] = True
             ents[-1]["span"] = True
+            self.emitted.append({"kind": kinds_of(nxt)[0], "epoch": sp["state"][0], "plus": False, "origin": "own",
+                                 "part": "head"})
         saved = rl._writeState
         rl._writeState = sp["state"][1]
         try:
@@ -423,13 +427,15 @@ class Editor(object):
         conn._handshake_hash.update(nb)
         rest = Message(22, nb[3:])
         if via == "queue":
-            self.pending_q.extend(self._log(nxt, "own"))
+            ents = self._log(nxt, "own")
+            self.pending_q.extend(ents)
             if conn._buffer_content_type is None:
                 conn._buffer_content_type = 22
             conn._buffer += nb[3:]
         else:
-            self._log(nxt, "own")
+            ents = self._log(nxt, "own")
             drain(self.cls._sendMsg(conn, rest, True, False))
+        ents[0]["part"] = "tail"
 
     # -- the hook
     def fn(self, via, msg):
@@ -527,7 +533,8 @@ class Editor(object):
             from tlslite.messages import Message
             try:
                 self._flush()
-                self.emitted.append({"kind": "key_update", "epoch": self.epoch_now(), "plus": False, "origin": "insert"})
+                self.emitted.append({"kind": "key_update", "epoch": self.epoch_now(), "plus": False,
+                                     "origin": "insert", "part": "tail"})
                 drain(self.cls._sendMsg(self.conn, Message(22, bytearray(self.frag_rest)), True, False))
                 self.conn.sock.flush()
             except Exception as x:  # noqa: B902
@@ -604,6 +611,14 @@ class Watch(object):
         conn._getNextRecord = gnr
         conn._changeReadState = crs
         conn._handshakeDone = done
+        rl = conn._recordLayer
+        orig_ku = rl.calcTLS1_3KeyUpdate_sender
+
+        def ku(*a, **kw):
+            r = orig_ku(*a, **kw)          # a received KeyUpdate installs new READ keys
+            self.read_epoch += 1
+            return r
+        rl.calcTLS1_3KeyUpdate_sender = ku
 
 
 def kind_of_record(ct, data, ssl2=False):
@@ -738,14 +753,16 @@ def params_of(scn, victim, resumed=None):
          "resume": res, "resumed": resumed,
          "compcert": fam == "tls13" and (victim == "server" or not scn.get("nocomp")),
          "hb": fam != "ssl3",
-         "compat": fam == "tls13"}
+         "compat": fam == "tls13",
+         # TLS 1.3: the client holds a key pair (offers post_handshake_auth)
+         "keypair": fam == "tls13" and bool(scn.get("keypair") or scn.get("clientcert"))}
     return p
 
 
 def cfg_string(p):
     b = lambda x: "1" if x else "0"  # noqa: E731
     return ",".join([p["role"], p["ver"], p["kx"], b(p["reqcert"]), b(p["clientcert"]), b(p["tickets"]), b(p["npn"]),
-                     b(p["hrr"]), p["resume"], b(p["compcert"]), b(p["hb"]), b(p["compat"])])
+                     b(p["hrr"]), p["resume"], b(p["compcert"]), b(p["hb"]), b(p["compat"]), b(p["keypair"])])
 
 
 # ---------------------------------------------------------------------------------------------
@@ -861,7 +878,8 @@ def tokens_of(emitted):
     for e in emitted:
         if e["kind"] == "unknown":
             return None
-        toks.append("%s:%d%s" % (e["kind"], e["epoch"], "+" if e["plus"] else ""))
+        toks.append("%s:%d%s%s" % (e["kind"], e["epoch"], "+" if e["plus"] else "",
+                                     {"head": "<", "tail": ">"}.get(e.get("part"), "")))
     return toks
 
 
@@ -899,19 +917,9 @@ def compare(obs, m):
         if e["origin"] in ("insert", "replace", "nohash_insert") and e["kind"] in CONTENT_KINDS and code in "NP":
             cut = handed
             break
-        if (e.get("frag") or e.get("span")) and code in "NP":
-            # stray handshake bytes stay in the victim's defragmenter and are glued to whatever comes
-            # next: from here on the outcome depends on bytes, not on message kinds
-            cut = handed
-            break
         if e["origin"] == "swapped" and code in "NXP":
             cut = handed               # the peer computed later messages (Finished) before this one went out
             break
-        if e["kind"] == "certificate_request" and code == "A" and m["hs"] == 1 and "D" not in steps[:i] \
-                and e["origin"] != "own" and m["status"].endswith("unexpected_message") and obs["hs"] == "complete":
-            # TLS 1.3 post-handshake authentication (a client holding a key pair reads
-            # CertificateRequest after completion) is not modelled
-            return [], True
         if e["origin"] in ("insert", "replace", "dup", "swapped") and code == "W":
             cut = handed               # dropped by the victim but hashed by the peer: transcripts diverge
             break
@@ -937,7 +945,7 @@ def compare(obs, m):
         real = post if m["hs"] == 1 else hs
         if m["hs"] == 1 and hs != "complete":
             diffs.append("status")
-        elif alert == "wrong_epoch":
+        elif alert in ("wrong_epoch", "garbled"):
             # the record is garbage for the victim: it never proceeds; which alert (or an endless wait
             # for the rest of a "message" whose length field is random) depends on the bytes
             # (an alert-type record of garbage is read as some alert from the peer: closed)
@@ -1007,6 +1015,7 @@ def all_scenarios():
     add(True, ver="tls13", kx="ecdhe", tickets=True, res="ticket")
     add(False, ver="tls13", kx="dhe")
     add(True, ver="tls13", kx="psk")
+    add(False, ver="tls13", kx="ecdhe", keypair=True)
     add(False, ver="tls13", kx="psk", psk_mode="psk_ke")
     add(False, ver="tls13", kx="psk", hrr=True)
     return out
@@ -1156,8 +1165,9 @@ def violation_key(p, received, completed_prefix):
 
 
 def fmt_emitted(em):
-    return " ".join("%s:%d%s%s" % (e["kind"], e["epoch"], "+" if e["plus"] else "",
-                                   "" if e["origin"] == "own" else "(" + e["origin"] + ")") for e in em)
+    return " ".join("%s:%d%s%s%s" % (e["kind"], e["epoch"], "+" if e["plus"] else "",
+                                     {"head": "<", "tail": ">"}.get(e.get("part"), ""),
+                                     "" if e["origin"] == "own" else "(" + e["origin"] + ")") for e in em)
 
 
 def evaluate(ctx, pending, scn, victim, edits, bank, kw, label="dev"):
@@ -1195,8 +1205,10 @@ def evaluate(ctx, pending, scn, victim, edits, bank, kw, label="dev"):
                 if e["kind"] == "client_hello" and p["hrr"] and \
                         [x["kind"] for x in obs["emitted"][:i]].count("client_hello") == 0:
                     continue
+                whole = [x["kind"] for x in obs["emitted"][:i + 1] if x.get("part") != "head"]
+                i = len(whole) - 1
                 past = len(obs["received"]) > i + 1 or (obs["hs"] == "complete" and (obs["recs_at_done"] or 0) > i)
-                if past and obs["received"][:i + 1] == [x["kind"] for x in obs["emitted"][:i + 1]]:
+                if past and obs["received"][:i + 1] == whole:
                     ctx.violation("c06:tls13-message-before-key-change-not-aligned:%s:%s" % (victim, e["kind"]),
                                   "%s (%s) went on after a %s whose record carried further handshake bytes "
                                   "(RFC 8446 5.1: handshake messages must not span key changes)"
@@ -1474,6 +1486,14 @@ def run(ctx):
                     evaluate(ctx, pending, scn, victim, a + b, bank, kw)
                     if len(pending) >= 300:
                         flush(ctx, pending)
+            for script, fedits in post_scripts(scn, victim, thorough, rng):
+                kw = prime(scn) if scn.get("res") else {}
+                try:
+                    post_case(ctx, pending, scn, victim, script, bank, kw, fedits)
+                except Exception as e:  # noqa: B902
+                    ctx.extra.setdefault("lab_errors", []).append({"scn": scn_name(scn), "victim": victim,
+                                                                   "stage": "post", "error": repr(e)})
+                    ctx.count("lab-error:" + type(e).__name__)
             if main or thorough:
                 kw = prime(scn) if scn.get("res") else {}
                 try:
@@ -1523,3 +1543,314 @@ def replay(ctx, rep):
     for d in ctx.disagreements:
         print("disagreement:", d["stream"], d["model"], "vs", d["impl"])
     return bool(ctx.violations or ctx.disagreements)
+
+
+# ---------------------------------------------------------------------------------------------
+# the post-handshake phase: readAsync dispatch, post-handshake authentication, KeyUpdate, close-wait
+def py_post_ok(p, kinds, requests_before):
+    """independent reading of RFC 8446 4.6 / RFC 5246 7.4.1.1 / RFC 6520 for what may ARRIVE on an
+    established connection (list walk, not the Lean spec).  `kinds` may contain the local markers
+    '!pha' (server application asks for authentication) and '!close'.  Returns the index of the
+    first item that is not permitted, or None."""
+    n = requests_before
+    i = 0
+    closing = False
+    free = {"app_data", "empty_app_data"}
+    if p["hb"]:
+        free.add("heartbeat")
+    while i < len(kinds):
+        k = kinds[i]
+        if k == "!pha":
+            if p["ver"] == "tls13" and p["role"] == "server" and p["keypair"] and not closing:
+                n += 1
+        elif k == "!close":
+            closing = True
+        elif k in ("alert_warning", "alert_fatal", "close_notify", "no_certificate_alert"):
+            return None                      # the connection ends here
+        elif k in free:
+            pass
+        elif p["ver"] == "tls13":
+            if k == "key_update":
+                pass
+            elif p["role"] == "client" and k == "new_session_ticket":
+                pass
+            elif p["role"] == "client" and k == "certificate_request" and p["keypair"] and not closing:
+                pass
+            elif p["role"] == "server" and not closing and n > 0 and \
+                    (k == "certificate" or (k == "compressed_certificate" and p["compcert"])):
+                # the client's answer: Certificate [CertificateVerify] Finished, consecutively
+                want = ["certificate_verify", "finished"] if p["keypair"] else ["finished"]
+                j = i + 1
+                for w in want:
+                    while j < len(kinds) and kinds[j] == "heartbeat" and p["hb"]:
+                        j += 1
+                    if j >= len(kinds):
+                        return None          # flight still incomplete: fine so far
+                    if kinds[j] in ("alert_warning", "alert_fatal", "close_notify"):
+                        return None
+                    if kinds[j] != w:
+                        return j
+                    j += 1
+                n -= 1
+                i = j
+                continue
+            else:
+                return i
+        else:
+            if not (k == ("client_hello" if p["role"] == "server" else "hello_request")):
+                return i
+        i += 1
+    return None
+
+
+def post_case(ctx, pending, scn, victim, script, bank, kw, flight_edits=()):
+    """honest handshake, then a script of post-handshake actions:
+       ('vpha',) victim server requests authentication      ('ppha',) the peer (server) does
+       ('pread',) peer reads once (answers a CertificateRequest)   ('vread',) victim reads all
+       ('psend', kind) peer sends a synthetic message        ('pku',) peer sends a real KeyUpdate
+       ('vclose',) victim closes with closeSocket=False      flight_edits: edits of the peer's
+       next messages, positions relative to its first post-handshake message"""
+    from harness import lab
+    from tlslite import errors
+    p = params_of(scn, victim)
+    peer = "server" if victim == "client" else "client"
+    L = lab.Lab()
+    start(scn, L, **kw)
+    ed = Editor(L, peer, [], bank, VERS[scn["ver"]])
+    w = Watch(L.end(victim).conn)
+    L.run()
+    v, pe = L.end(victim), L.end(peer)
+    rep = {"scn": scn, "victim": victim, "script": [list(a) for a in script],
+           "flight_edits": [list(e) for e in flight_edits], "stage": "post"}
+    ctx.case(key=("post", scn_name(scn), victim, tuple(script), tuple(flight_edits)), sample=None)
+    ctx.count("post-handshake-cases")
+    if v.state != "done" or pe.state != "done":
+        ctx.disagree("honest-handshake-failed", rep, "complete", outcome_of(v))
+        return
+    n_hs = len(ed.emitted)
+    chain_before = v.conn.session.clientCertChain if v.conn.session else None
+    ed.edits = [tuple([e[0], ed.pos + e[1]] + list(e[2:])) for e in flight_edits]
+    ed.applied = set()
+    data = b""
+    post = None
+    closing_gen = None
+
+    reader = {"active": False}
+
+    def classify(e):
+        if isinstance(e, errors.TLSLocalAlert):
+            return "abort:" + alert_name(e.description)
+        if isinstance(e, errors.TLSRemoteAlert):
+            return "closed:" + alert_name(e.description)
+        return "exc:" + type(e).__name__
+
+    def vread():
+        """drive ONE readAsync generator as an event loop does: it is kept across 'nothing to read'
+        (abandoning it inside a post-handshake authentication flight would lose the flight state)"""
+        nonlocal data, post
+        if post is not None or v.conn.closed:
+            return
+        for _ in range(40):
+            if not reader["active"]:
+                v.start(v.conn.readAsync())
+                reader["active"] = True
+            else:
+                v.state = "running"
+            L.run(only=(victim,))
+            if v.state == "done":
+                reader["active"] = False
+                if v.result:
+                    data += bytes(v.result)
+                    continue
+                post = "eof"
+                return
+            if v.state == "error":
+                reader["active"] = False
+                post = classify(v.exc)
+                return
+            return                      # stalled: nothing more to read right now
+
+    for act in script:
+        try:
+            if act[0] == "vpha":
+                vread()
+                if post is None:
+                    try:
+                        r = L.op(victim, v.conn.request_post_handshake_auth())
+                    except ValueError:
+                        r = ("refused", None)
+                    ed.emitted.append({"kind": "!pha", "epoch": 0, "plus": False, "origin": "local"})
+            elif act[0] == "ppha":
+                L.op(peer, pe.conn.request_post_handshake_auth(), pump_other=False)
+            elif act[0] == "pread":
+                if not pe.conn.closed:
+                    L.read(peer, min=0)
+                    ed.finish_span_only() if hasattr(ed, "finish_span_only") else None
+            elif act[0] == "vread":
+                vread()
+            elif act[0] == "psend":
+                m = ed.synth(act[1])
+                if m is not None and not pe.conn.closed:
+                    ed._direct(m, "insert")
+                    pe.conn.sock.flush()
+            elif act[0] == "pku":
+                if not pe.conn.closed:
+                    L.op(peer, pe.conn.send_keyupdate_request(0), pump_other=False)
+            elif act[0] == "vclose":
+                vread()
+                if post is None:
+                    if reader["active"]:
+                        v.gen.close()
+                        reader["active"] = False
+                    v.conn.closeSocket = False
+                    ed.emitted.append({"kind": "!close", "epoch": 0, "plus": False, "origin": "local"})
+                    closing_gen = v.conn.closeAsync()
+                    v.start(closing_gen)
+                    L.run(only=(victim,))
+            elif act[0] == "vresume":
+                if closing_gen is not None and v.state in ("stall", "running"):
+                    v.state = "running"
+                    L.run(only=(victim,))
+                    if v.state == "error":
+                        e = v.exc
+                        post = ("abort:" + alert_name(e.description)) if isinstance(e, errors.TLSLocalAlert) else \
+                            ("closed:" + alert_name(e.description)) if isinstance(e, errors.TLSRemoteAlert) else \
+                            "exc:" + type(e).__name__
+                    elif v.state == "done":
+                        post = "eof"
+        except Exception as e:  # noqa: B902
+            ctx.count("post-lab-error:" + type(e).__name__)
+            ctx.extra.setdefault("lab_errors", []).append({"scn": scn_name(scn), "victim": victim, "script": rep["script"],
+                                                           "error": repr(e)})
+            return
+    ed.finish()
+    if closing_gen is None:
+        vread()
+    late = [e for e in ed.emitted[n_hs:]]
+    kinds_late = [e["kind"] for e in late if e.get("part") != "head"]
+    summary = dict(rep, post=post, emitted=fmt_emitted(ed.emitted), received=list(w.received), data=data.hex(),
+                   cfg=cfg_string(p), outstanding=len(getattr(v.conn, "_cert_requests", {}) or {}))
+    # ---- oracle: the first item the RFCs do not permit must end the connection with a fatal alert;
+    #      a client certificate is recorded only after a complete, consecutive flight
+    bad = py_post_ok(p, kinds_late, 0)
+    got = w.received[w.recs_at_done:]
+    if bad is not None:
+        # was the offending message read at all?  (count the messages up to it)
+        n_before = len([k for k in kinds_late[:bad + 1] if not k.startswith("!")])
+        if len(got) >= n_before and not (post or "").startswith("abort:") and all(
+                e["epoch"] >= 0 for e in late):
+            ctx.violation("c06:post-handshake-deviation-not-fatal:%s:%s" % (victim, kinds_late[bad]),
+                          "%s (%s) read %s on the established connection, which the protocol does not permit there "
+                          "(%s), and did not abort (outcome %s)" % (victim, scn_name(scn), kinds_late[bad],
+                                                                  " ".join(kinds_late), post),
+                          dict(summary, stage="oracle-post"))
+    chain_after = v.conn.session.clientCertChain if v.conn.session else None
+    if victim == "server" and chain_after is not chain_before:
+        seq = [k for k in got if k not in ("heartbeat", "app_data", "empty_app_data", "key_update")]
+        flight = ["certificate", "certificate_verify", "finished"]
+        alt = ["compressed_certificate", "certificate_verify", "finished"]
+        ok = any(seq[i:i + 3] in (flight, alt) for i in range(len(seq))) and "!pha" in kinds_late
+        if not ok:
+            ctx.violation("c06:pha-identity-recorded-without-complete-flight",
+                          "server (%s) recorded a client certificate chain after the post-handshake messages %s"
+                          % (scn_name(scn), " ".join(got)), dict(summary, stage="oracle-pha"))
+    # ---- automaton
+    lc = ctx.lean()
+    if lc is None:
+        return
+    toks = []
+    for e in ed.emitted:
+        if e["kind"].startswith("!"):
+            toks.append(e["kind"])
+        elif e["kind"] == "unknown":
+            ctx.count("unmodelled-token")
+            return
+        else:
+            toks.append("%s:%d%s%s" % (e["kind"], e["epoch"], "+" if e["plus"] else "",
+                                       {"head": "<", "tail": ">"}.get(e.get("part"), "")))
+    o = lc.ask("run %s %s" % (cfg_string(p), " ".join(toks)))
+    pa = lc.ask("postallowed %s 0 %s" % (cfg_string(p), " ".join(toks[n_hs:]))) if toks[n_hs:] else "true"
+    ctx.compared()
+    if o == "bad-op" or pa == "bad-op":
+        ctx.disagree("driver", summary, o, None)
+        return
+    m = parse_model(o)
+    obs = {"hs": "complete", "post": post, "acc": w.acc, "acc_at_done": w.acc_at_done, "read_epoch": w.read_epoch,
+           "data": data, "emitted": ed.emitted}
+    # foreign-content cut / exact comparison as for the handshake phase
+    emx = [e for e in ed.emitted]
+    diffs, cut = compare(dict(obs, emitted=emx), m)
+    if not cut and not diffs and m.get("out") is not None and m["status"] in ("complete",) and \
+            int(m["out"]) != summary["outstanding"]:
+        diffs.append("outstanding")
+    if diffs:
+        ctx.disagree("automaton-post", dict(summary, diffs=diffs, acc=w.acc, read_epoch=w.read_epoch), o,
+                     "complete post=%s acc=%s ep=%s del=%d out=%d" % (post, w.acc, w.read_epoch, len(data) // 11,
+                                                                      summary["outstanding"]))
+    # Lean post-handshake grammar vs the Python reading
+    py = bad is None
+    if (pa == "true") != py:
+        ctx.disagree("lean-post-grammar-vs-python", summary, pa, py)
+
+
+def post_scripts(scn, victim, thorough, rng):
+    """(script, flight_edits) pairs for the post-handshake phase of a scenario"""
+    out = []
+    v13 = scn["ver"] == "tls13"
+    kp = bool(scn.get("keypair") or scn.get("clientcert"))
+    resumed = bool(scn.get("res")) or scn["kx"] == "psk"
+    interesting = scn["ver"] in ("tls13", "tls12") and scn["kx"] in ("ecdhe", "psk") and not scn.get("hrr") \
+        and not scn.get("nocomp") and not scn.get("npn")
+    if not interesting and not thorough:
+        return out
+    junk = ["finished", "certificate", "certificate_verify", "new_session_ticket", "certificate_request", "ccs",
+            "client_hello", "hello_request", "server_hello_done", "heartbeat", "empty_app_data"]
+    # close-wait loop of _decrefAsync
+    out.append(([("vclose",), ("psend", "app_data"), ("vresume",), ("psend", "close_notify"), ("vresume",)], ()))
+    for k in (junk if thorough else rng.sample(junk, 4)):
+        out.append(([("vclose",), ("psend", "app_data"), ("psend", k), ("vresume",), ("psend", "close_notify"),
+                     ("vresume",)], ()))
+    if v13:
+        out.append(([("vclose",), ("pku",), ("psend", "app_data"), ("vresume",), ("psend", "close_notify"), ("vresume",)], ()))
+        out.append(([("pku",), ("psend", "app_data"), ("pku",), ("psend", "app_data"), ("vread",)], ()))
+        for k in junk[:5]:
+            out.append(([("psend", "app_data"), ("psend", k), ("psend", "app_data"), ("vread",)], ()))
+    if not v13 or resumed:
+        return out
+    if victim == "server":
+        # post-handshake authentication, the server is the victim: the client's flight is edited
+        out.append(([("vpha",), ("pread",), ("vread",)], ()))
+        out.append(([("vpha",), ("vpha",), ("pread",), ("pread",), ("vread",), ("psend", "app_data"), ("vread",)], ()))
+        out.append(([("psend", "certificate"), ("vread",)], ()))                 # a flight nobody asked for
+        out.append(([("vpha",), ("pread",), ("vread",), ("psend", "certificate"), ("vread",)], ()))
+        if kp:
+            n = 3
+            ins = ["key_update", "app_data", "ccs", "finished", "new_session_ticket", "certificate_verify",
+                   "heartbeat", "alert_warning"]
+            devs = []
+            for j in range(n):
+                devs += [[("skip", j)], [("dup", j)]]
+                if j + 1 < n:
+                    devs.append([("swap", j)])
+                devs.append([("frag", j)])
+                if j + 1 < n:
+                    devs.append([("span", j)])
+            for j in range(n + 1):
+                for k in (ins if thorough else rng.sample(ins, 3)):
+                    devs.append([("insert", j, k)])
+            for j in range(n):
+                for k in (ins if thorough else rng.sample(ins, 1)):
+                    devs.append([("replace", j, k)])
+            for d in devs:
+                out.append(([("vpha",), ("pread",), ("vread",), ("psend", "app_data"), ("vread",)], tuple(d)))
+    else:
+        # the client is the victim: CertificateRequest with / without a key pair, tickets, KeyUpdate
+        if kp:
+            out.append(([("ppha",), ("vread",), ("pread",), ("psend", "app_data"), ("vread",)], ()))
+            out.append(([("ppha",), ("vread",), ("pread",), ("ppha",), ("vread",), ("pread",)], ()))
+            out.append(([("ppha",), ("vread",), ("pread",), ("psend", "app_data"), ("vread",)], (("dup", 0),)))
+            out.append(([("ppha",), ("pku",), ("psend", "app_data"), ("vread",)], ()))
+        else:
+            out.append(([("psend", "certificate_request"), ("vread",)], ()))
+        out.append(([("psend", "new_session_ticket"), ("psend", "app_data"), ("vread",)], ()))
+    return out
